@@ -103,17 +103,17 @@ Proof. exact stmts_fail. Qed.
 Print Assumptions C07_statement_k_of_n.
 
 Theorem C07_list_chain_element :
-  forall R n env it keep h acc st x st1 k m st2,
-    iter_next R env it st = (Ok (Some x), st1) -> h x st1 = (Er k m, st2) ->
-    list_loop R (S n) env it keep h acc st = (Er k m, st2).
-Proof. exact list_loop_elem_fail. Qed.
+  forall S n (nxt : S -> M (option (val * S))) s keep h acc st x s' st1 k m st2,
+    nxt s st = (Ok (Some (x, s')), st1) -> h x st1 = (Er k m, st2) ->
+    list_loop (Datatypes.S n) nxt s keep h acc st = (Er k m, st2).
+Proof. exact @list_loop_elem_fail. Qed.
 Print Assumptions C07_list_chain_element.
 
 Theorem C07_reduce_chain_element :
-  forall R n env it h acc st x st1 k m st2,
-    iter_next R env it st = (Ok (Some x), st1) -> h acc x st1 = (Er k m, st2) ->
-    reduce_loop R (S n) env it h acc st = (Er k m, st2).
-Proof. exact reduce_loop_elem_fail. Qed.
+  forall S n (nxt : S -> M (option (val * S))) s h acc st x s' st1 k m st2,
+    nxt s st = (Ok (Some (x, s')), st1) -> h acc x st1 = (Er k m, st2) ->
+    reduce_loop (Datatypes.S n) nxt s h acc st = (Er k m, st2).
+Proof. exact @reduce_loop_elem_fail. Qed.
 Print Assumptions C07_reduce_chain_element.
 
 (* nearest handler: it receives exactly the raised kind and message *)
